@@ -211,6 +211,55 @@ example : holds [.reqSite [.genReq [("x", "1")] ["r"] "g", .modHdr [("x", "2"), 
     .respSite [.modResp [("x", "1")] "b" 200, .noop] (encodeResp (foldResp [.modResp [("x", "1")] "b" 200, .noop]))] = true := by
   decide
 
+/-! ## Legacy (policies) mode: `runner.DispatchOnRequest` / `DispatchOnResponse`
+
+`scriptReq` / `scriptResp` are the answers of the configured remedies (the environment);
+`legacyFoldReq` = `runOnRequest`, `rerunEarly` = `obtainModifiedEarlyResponse`. -/
+
+/-- `runOnRequest`: the first remedy that answers the request itself wins, unchanged, whatever
+    the other remedies answer (a `GenerateRequestAction` before it included). -/
+theorem legacy_first_early (H0 : Hdrs) (rs : List Remedy) (e : ReqAct)
+    (he : firstEarly (scriptReq { hdrs := H0 } rs) = some e) : legacyFoldReq H0 rs = e := by
+  obtain ⟨pre, post, hsplit, hpre, hE⟩ := firstEarly_some _ e he
+  unfold legacyFoldReq
+  rw [hsplit]; exact fold_first_early pre post e hpre hE
+
+/-- `runOnRequest` obeys the whole request rule for the remedies' answers. -/
+theorem legacy_fold_ok (H0 : Hdrs) (rs : List Remedy) :
+    reqFoldOk (scriptReq { hdrs := H0 } rs) (legacyFoldReq H0 rs) = true :=
+  req_fold_ok _
+
+/-- `obtainModifiedEarlyResponse` keeps status and body of the early response; its header map
+    gains exactly the header edits of the response-side modifications, last writer winning. -/
+theorem legacy_rerun_early (rs : List Remedy) (s : Int) (b : String) (h : Hdrs) :
+    ∃ h', rerunEarly rs (.early s b h) = .early s b h' ∧
+      ∀ k, h'.lookup k = lastWriter k (h :: respEdits (scriptResp s rs)) := by
+  refine ⟨_, rfl, fun k => ?_⟩
+  rw [rerun_foldl_eq, foldl_merge_lookup]
+
+/-- Anything that is not an early response passes through unchanged. -/
+theorem legacy_rerun_other (rs : List Remedy) (a : ReqAct) (h : a.isEarly = false) :
+    rerunEarly rs a = a := rerunEarly_of_not_early rs a h
+
+/-- Connection: the judge predicate of the legacy request site is true of every model run. -/
+theorem legacy_req_holds (H0 : Hdrs) (rs : List Remedy) :
+    legacyReqHolds H0 rs (encodeReq (legacyReq H0 rs)) = true :=
+  legacyReqHolds_legacyReq H0 rs
+
+/-- … and of the legacy response site. -/
+theorem legacy_resp_holds (status : Int) (rs : List Remedy) :
+    legacyRespHolds status rs (encodeResp (legacyResp status rs)) = true :=
+  resp_site_holds _
+
+/-- OAuth (`GenerateRequestAction`) first, then a fixed response: the early response wins; a retry
+    remedy covering 418 adds its header, status and body stay. -/
+example : legacyReq [("early-response", "true")]
+    [.oauth "s3cr3t", .acct [("x", "1")], .fixed 418, .fixed 503, .retry 5 400 499, .retry 7 0 599] =
+    .early 418 fixedBody [("powered-by", "Lunar Interventions Inc."), ("x-lunar-retry-after", "7")] := by decide
+
+example : legacyReq [("a", "A")] [.acct [("x", "1")], .oauth "t", .apikey [("x", "3")], .fixed 418] =
+    .modReq [("a", "A"), ("x", "3")] "" "" "" "" := by decide
+
 /-! ## Object level: the fold on pointers agrees with the fold on values -/
 
 /-- Folding the objects named `ns` (ANY list, the same object may occur several times) whose values
